@@ -36,7 +36,7 @@ def _run(ctx, chk):
     chk.not_decided = ["the full priority relation over histories", "that a same-price amend keeps its place (today only through the stale ticket)"]
     Q = QueueAnalysis(ctx)
     L = LevelAnalysis(ctx)
-    Q.rule_push(chk, "P1", "P1")
+    Q.rule_push(chk, "P1", None)    # single-threaded property: the order of insert and ticket append is not observable
     Q.rule_pop(chk, "P1", "P1", "P1", seq=True)
     Q.who_may(chk, "P1")
     Q.rule_constructors(chk, "P2")
